@@ -834,7 +834,9 @@ orc_x86_compile (OrcCompiler *compiler)
   t = compiler->target->target_data;
   align_var = orc_x86_get_max_alignment_var (t, compiler);
   if (align_var < 0) {
-    orc_x86_assemble_copy (compiler);
+    /* no array variable: orc_x86_get_max_alignment_var() has raised the
+     * compile error; there is nothing to emit (and no instruction to look at
+     * in an empty program) */
     return;
   }
 
